@@ -132,4 +132,54 @@ theorem C04_linear (mu mv a b n : Rat) (hv : mv ≠ 0) :
     (n * (mu * a) - 0) / mv = n * ((mu * a - 0) / mv) := by
   constructor <;> field_simp <;> ring
 
+/-- **conversion distributes over + and over multiplication by a number** on the model itself, for
+    offset-free rational units U, V of one dimension: `(a U + b U) to V = (a U to V) + (b U to V)`
+    and `(n * (a U)) to V = n * (a U to V)`, as Ka values (canonical numbers), not just as algebra -/
+theorem C04_distributes (t : UnitTable) (su sv : Sig) (cu cv : Composed)
+    (hcu : composeUnits t su = .ok cu) (hcv : composeUnits t sv = .ok cv) (hd : cu.dim = cv.dim)
+    (mu mv : Rat) (hmu : cu.multiple = canon mu) (hou : cu.offset = canon 0)
+    (hmv : cv.multiple = canon mv) (hov : cv.offset = canon 0) (hv0 : mv ≠ 0) (a b n : Rat)
+    (hlen : cu.dim.length = t.baseUnits.length) :
+    (do let qa ← makeQuantity t (.num (canon a)) su
+        let qb ← makeQuantity t (.num (canon b)) su
+        let s ← applyOp t.baseUnits.length .add qa qb
+        convertQuantity t s sv)
+      = (do let qa ← makeQuantity t (.num (canon a)) su
+            let qb ← makeQuantity t (.num (canon b)) su
+            let ya ← convertQuantity t qa sv
+            let yb ← convertQuantity t qb sv
+            applyOp t.baseUnits.length .add ya yb) ∧
+    (do let qa ← makeQuantity t (.num (canon a)) su
+        let p ← applyOp t.baseUnits.length .mul (.num (canon n)) qa
+        convertQuantity t p sv)
+      = (do let qa ← makeQuantity t (.num (canon a)) su
+            let ya ← convertQuantity t qa sv
+            applyOp t.baseUnits.length .mul (.num (canon n)) ya) := by
+  have ex := isExact_canon
+  have mk : ∀ x : Rat, makeQuantity t (.num (canon x)) su = .ok (.qty (canon (mu * x)) cu.dim) := by
+    intro x
+    have h := C04_make t su cu hcu (by rw [hmu]; exact ex _) (by rw [hou]; exact ex _) (canon x) (ex x)
+    rw [hmu, hou, toRat_canon, toRat_canon, toRat_canon, add_zero] at h; exact h
+  have cv' : ∀ M : Rat, convertQuantity t (.qty (canon M) cu.dim) sv = .ok (.num (canon (M / mv))) := by
+    intro M
+    have h := (C04_to t sv cv hcv mv 0 hmv hov hv0 M).1
+    rw [← hd, sub_zero] at h; exact h
+  have hadd : ∀ x y : Rat, binop .add (canon x) (canon y) = .ok (canon (x + y)) :=
+    fun x y => binop_lin_canon .add (Or.inl rfl) x y
+  have hmul : ∀ x y : Rat, binop .mul (canon x) (canon y) = .ok (canon (x * y)) :=
+    fun x y => binop_lin_canon .mul (Or.inr (Or.inr rfl)) x y
+  constructor
+  · simp only [mk, cv', bind, Except.bind, applyOp, qtyOp, numOp, hadd, bne_self_eq_false, Bool.false_eq_true, if_false]
+    congr 3; field_simp
+  · have hz : Dim.add (Dim.zero t.baseUnits.length) cu.dim = cu.dim := by
+      rw [← hlen]
+      generalize cu.dim = d
+      induction d with
+      | nil => rfl
+      | cons x xs ih =>
+        simp only [Dim.add, Dim.zero, List.length_cons, List.replicate_succ, List.zipWith_cons_cons, Int.zero_add]
+        congr 1
+    simp only [mk, cv', bind, Except.bind, applyOp, qtyOp, numOp, hmul, hz]
+    congr 3; field_simp
+
 end KaVerif
